@@ -4,6 +4,18 @@ From Coq Require Import ZArith List Bool PrimFloat.
 From FV Require Import NumSys FloatA Py Queue Stats Detector Cusum SPC HDDM KS Window ADWIN BOCD.
 Import ListNotations.
 
+(** A number system whose carrier is [float]: FloatA itself, or FloatA with perturbed
+    transcendental functions (used to recognise verdicts that hinge on the last bits of ln / exp). *)
+Definition FloatP (k : float) : Arith := {|
+  num := float;
+  add := PrimFloat.add; sub := PrimFloat.sub; mul := PrimFloat.mul; div := PrimFloat.div;
+  sqrt := PrimFloat.sqrt;
+  exp := fun x => PrimFloat.mul (fexp x) (PrimFloat.add PrimFloat.one k);
+  ln := fun x => PrimFloat.mul (fln x) (PrimFloat.add PrimFloat.one k);
+  ltb := PrimFloat.ltb; leb := PrimFloat.leb; eqb := PrimFloat.eqb;
+  ofZ := fofZ;
+|}.
+
 Definition obs := (bool * bool * Z * list float)%type.
 Definition oinf (o : option float) : float := match o with Some x => x | None => infinity end.
 Definition oninf (o : option float) : float := match o with Some x => x | None => neg_infinity end.
@@ -13,6 +25,10 @@ Definition bf (b : bool) : float := if b then PrimFloat.one else PrimFloat.zero.
 
 Definition run_obs (D : Detector) (o : d_st D -> obs) (c : d_cfg D) (ops : list (op (d_in D))) : list obs :=
   map o (trace D c ops).
+
+Section ObsP.
+Variable k : float.
+Notation FloatA := (FloatP k).
 
 (** operation lists: codes 0 / 1 = update with 0.0 / 1.0, 2 = reset *)
 Definition ops_of_codes (l : list Z) : list (op float) :=
@@ -59,6 +75,8 @@ Definition obs_stepd (s : stepd_st) : obs :=
   (sdrift s, swarning s, sn s, [zf (scorrect s); zf (aq_num_true (swin s)); zf (aq_size (swin s))]).
 Definition obs_bocd (s : bocd_st FloatA) : obs :=
   (bdrift s, false, bn s, [onan (bpmean s); onan (bpvar s)] ++ brow s).
+
+End ObsP.
 
 (** exhaustive families: the [len] low bits of [i], most significant first *)
 Fixpoint bits_of (i : Z) (len : nat) (acc : list Z) : list Z :=
